@@ -132,6 +132,19 @@ func (in *Interp) intrinsic(fn *ssa.Function, args []Value) (Value, bool) {
 	case "verifPanics":
 		f := args[0].(Func)
 		return in.callCatchingPanic(f), true
+	case "verifRunGo":
+		// run, synchronously, the first not-yet-run recorded go statement
+		// whose callee name contains the argument
+		sub := in.strArg(args[0])
+		for i := range in.events {
+			e := &in.events[i]
+			if e.Kind == "go" && !e.ran && e.fn != nil && strings.Contains(e.Name, sub) {
+				e.ran = true
+				in.invoke(in.top, e.fn, e.Args, nil)
+				return TTrue, true
+			}
+		}
+		return TFalse, true
 	case "verifOnBlock":
 		f := args[0].(Func)
 		in.onBlock = &f
